@@ -1,13 +1,13 @@
-\* exhaustive with the constants of the code, one reorganisation of B
+\* exhaustive with the constants of the code, one reorganisation of B and one restart of A
 SPECIFICATION MCSpecLens
 CONSTANTS
   MaxLocators = 20
   MaxHeaders = 512
-  Lens = {0, 3, 600, 1100}
+  Lens = {0, 3, 700}
   Diffs = {1, 2}
-  MaxIds = 3400
+  MaxIds = 2900
   MaxReorgs = 1
-  MaxResets = 0
+  MaxResets = 1
   MaxByz = 0
   Variant = "code"
   ProbeHeights = {}
